@@ -7,6 +7,8 @@
 //!                part of the case.
 //! * `total_raw`  first octet = options, rest = the file content verbatim
 //!                (entry point for the coverage-guided driver).
+//! * `anchored`   see anchored.rs: parsed::Zonefile (try_from / insert) on owner
+//!                collisions (CNAME, zone cuts), against a model of its rules.
 //! * `layout`     metamorphic: one logical zone file rendered twice with
 //!                independent layout choices; both readings must equal the
 //!                logical entry list.
@@ -25,6 +27,7 @@ use domain::rdata::ZoneRecordData;
 use domain::zonefile::inplace::{Entry, ScannedRecord, Zonefile};
 use std::collections::BTreeMap;
 
+pub mod anchored;
 pub mod logical;
 use logical::{LItem, Logical};
 
@@ -856,7 +859,7 @@ fn health(classes: &BTreeMap<String, u64>, _thorough: bool) -> Result<(), String
     let need = [
         "end:eof", "end:error", "returned:record", "returned:5+records", "returned:include", "src:fixture", "src:grammar", "src:template", "src:soup", "src:raw",
         "feed:From", "feed:Load", "feed:Extend", "feed:BufMut", "feed:Interleaved", "parsed:ok", "parsed:err", "mutations:0", "mutations:1+",
-        "nontrivial", "layout-parsed:ok", "layout-parsed:err", "include", "generic-rdata", "label-63", "origin:none", "origin:root", "origin:name", "default-class",
+        "nontrivial", "layout-parsed:ok", "layout-parsed:err", "hist:cname-rejected-cname", "hist:cut-rejected-cname", "anchored:accepted", "anchored:error-set", "direct:preset-apex", "direct:apex-from-soa", "verdict:IllegalRecord", "verdict:IllegalCname", "verdict:MultipleCnames", "verdict:IllegalZoneCut", "verdict:MissingSoa", "verdict:ClassMismatch", "include", "generic-rdata", "label-63", "origin:none", "origin:root", "origin:name", "default-class",
     ];
     let mut missing: Vec<String> = vec![];
     for n in need {
@@ -886,16 +889,18 @@ fn health(classes: &BTreeMap<String, u64>, _thorough: bool) -> Result<(), String
 pub fn prop() -> Option<Prop> {
     Some(Prop {
         id: "C07",
-        rule: "total/total_raw: case = file octets + reader options (origin, default class, allow_invalid, feed mode); non-trivial = the reader returned at least one entry or failed after consuming input beyond the first token position; distinct by (octets, options). layout: case = logical zone file + two renderings; non-trivial = at least 2 records and the renderings differ in at least 3 layout dimensions; distinct by (logical file, both texts)",
+        rule: "total/total_raw: case = file octets + reader options (origin, default class, allow_invalid, feed mode); non-trivial = the reader returned at least one entry or failed after consuming input beyond the first token position; distinct by (octets, options). layout: case = logical zone file + two renderings; non-trivial = at least 2 records and the renderings differ in at least 3 layout dimensions; distinct by (logical file, both texts). anchored: case = 3-9 records over 7 owners; non-trivial = at least 4 records, at least one rejected and two accepted by the documented rules",
         assumptions: &[
             "the harness's own presentation writer (logical.rs) is the reference for what a layout rewrite is",
             "iteration stops at the first Err, as the API documents; nothing is demanded of a reader after an error",
             "a hang is decided by the engine's isolated watchdog, not by this module",
+            "anchored: the reference for which inserts are rejected is a model of the rules parsed.rs documents (SOA first, one class, CNAME exclusivity/singleton, cuts only over glue, only glue at a cut)",
         ],
         subchecks: vec![
             SubCheck::new("total", run_total, 500_000, 10_000_000, 1500),
             SubCheck::new("total_raw", run_total_raw, 20_000, 400_000, 600),
             SubCheck::new("layout", run_layout, 120_000, 2_400_000, 3000),
+            SubCheck::new("anchored", anchored::run, 100_000, 2_000_000, 120),
         ],
         health: Some(health),
         extra: None,
